@@ -49,7 +49,7 @@ ASSUMPTIONS = [
 SHARD_TIMEOUT = {"quick": 900, "thorough": 5400}
 BOUNDS = {
     "quick": dict(n=400, depth=7, joint=2500, beliefs=4000, fallback=15000, plans=40),
-    "thorough": dict(n=3000, depth=9, joint=10000, beliefs=20000, fallback=60000, plans=120),
+    "thorough": dict(n=9000, depth=9, joint=10000, beliefs=20000, fallback=60000, plans=120),
 }
 
 
